@@ -5215,6 +5215,25 @@ class Entity(object, metaclass=EntityMeta):
 
             undo_funcs = []
             undo = []
+            assigned = dict(avdict)
+            def reindex():
+                # runs last.  A row (of this object or of another one) loaded while the call was linking
+                # collections builds its keys from the values of that moment: entries made from the new
+                # values are taken out, and what the object holds after the undo is (again) in the indexes
+                vals = obj._vals_
+                for attr in obj._simple_keys_:
+                    if attr not in assigned: continue
+                    index, new_val, cur_val = cache.indexes[attr], assigned[attr], vals.get(attr)
+                    if new_val is not None and new_val != cur_val and index.get(new_val) is obj: del index[new_val]
+                    if cur_val is not None: index.setdefault(cur_val, obj)
+                for attrs in obj._composite_keys_:
+                    if not any(attr in assigned for attr in attrs): continue
+                    index = cache.indexes[attrs]
+                    new_key = tuple(assigned[attr] if attr in assigned else vals.get(attr) for attr in attrs)
+                    cur_key = tuple(vals.get(attr) for attr in attrs)
+                    if None not in new_key and new_key != cur_key and index.get(new_key) is obj: del index[new_key]
+                    if None not in cur_key: index.setdefault(cur_key, obj)
+            undo_funcs.append(reindex)
             def undo_func():
                 obj._status_ = status
                 obj._wbits_ = wbits
@@ -5224,7 +5243,7 @@ class Entity(object, metaclass=EntityMeta):
                     assert obj2 is obj and obj._save_pos_ == len(objects_to_save)
                     obj._save_pos_ = None
                 for cache_index, old_key, new_key in undo:
-                    if new_key is not None: del cache_index[new_key]
+                    if new_key is not None: cache_index.pop(new_key, None)
                     if old_key is not None: cache_index[old_key] = obj
             undo_funcs.append(undo_func)
             try:
